@@ -31,6 +31,12 @@ Proof.
   destruct (call_time b); exact I.
 Qed.
 
+Lemma with_post_keeps : forall b r, nkept r -> nkept (with_post true b r).
+Proof.
+  intros b r H. destruct b; cbn [with_post]; auto.
+  destruct r as [[|[e0|i] it] c|es|]; cbn in *; auto.
+Qed.
+
 Lemma exec_tools_keeps : forall items ts, items <> [] -> nkept (exec_tools true items ts).
 Proof.
   intros items ts H. destruct items as [|it0 its]; [contradiction|].
@@ -48,7 +54,7 @@ Section Keep.
     nkept (exec_node F true rec items canc n).
   Proof.
     intros rec items canc n Hrec Hit. destruct n as [k f b|k gi|k ts]; cbn [exec_node].
-    - apply exec_lambda_keeps. exact Hit.
+    - apply with_post_keeps. apply exec_lambda_keeps. exact Hit.
     - destruct (nth_error F gi) as [g|] eqn:Eg; [|exact I].
       assert (Hg : nonempty_graph g = true).
       { rewrite forallb_forall in HF. apply HF. eapply nth_error_In; eauto. }
@@ -92,6 +98,8 @@ Section Keep.
       + destruct Hsrc as [H|[st [rest [n [it [c [E _]]]]]]]; [|discriminate].
         destruct items; [contradiction|exact I].
       + destruct canc; [exact I|].
+        destruct (pre_fails true items st) as [|pf0 pfs];
+          [|cbv beta iota; destruct (pre_panic true items); exact I].
         rewrite stage_fold_spec. cbn [orb app].
         set (rs := map (fun n => (node_key n, exec_node F true rec items false n)) st) in *.
         cbn [forallb] in Hcur. apply andb_true_iff in Hcur. destruct Hcur as [Hst Hrest].
